@@ -340,7 +340,7 @@ def check(case, ctx):
         if pr is not None and isinstance(fr, (pd.Series, pd.DataFrame)):
             ctx.count("vs_pandas")
             if isinstance(pr, pd.DataFrame) and isinstance(fr, pd.DataFrame):
-                pr = pr[[c for c in fr.columns if c in pr.columns]]
+                pr = pr[[c for c in pr.columns if c in set(fr.columns)]]  # (pandas' own column order is kept: it is compared)
             valmat = {("__s__" if isinstance(fr, pd.Series) else str(c)): df[c].to_numpy() for c in vcols}
             knull = np.zeros(n, bool)
             for k in keys:
@@ -411,10 +411,11 @@ def gen_case(rng):
     keycols = [dict(gen.gen_key(rng, n, kind=gen.pick(rng, ["int", "str", "float", "bool", "int"]), nlabels=int(rng.integers(1, 5)), null_p=gen.pick(rng, [0.0, 0.0, 0.2])), name=f"key{i}") for i in range(nk)]
     nv = int(rng.integers(1, 4))
     valcols = []
+    vnames = [str(x) for x in rng.permutation(["v0", "v1", "v2", "amount", "Weight", "z"])[:nv]]  # frame order is not label order
     for j in range(nv):
         dtype = gen.pick(rng, ["float64", "int64", "bool", "float64", "int32", "float32"])
         vs = gen.gen_vals(rng, n, dtype, magnitude="small" if dtype.startswith(("int", "float")) else None, null_mode=gen.pick(rng, ["none", "sparse", "allnull_group"]))
-        vs["name"] = f"v{j}"
+        vs["name"] = vnames[j]
         valcols.append(vs)
     obj = gen.pick(rng, ["series", "frame", "frame"])
     method = gen.pick(rng, METHODS)
